@@ -175,7 +175,8 @@ class Dataset(collection.Collection):
 
         memo = dict()
         if sort_by is not None:
-            sort_idx = np.argsort(np.asarray(getattr(self, sort_by)))
+            # Stable sort: observations with equal sort keys keep their relative order
+            sort_idx = np.argsort(np.asarray(getattr(self, sort_by)), kind="stable")
 
             for field in self._fields.values():
                 field.subset(sort_idx, memo)
